@@ -5,7 +5,7 @@
 EXTENDS Client
 CONSTANTS MaxEdits, Unfit
 VARIABLE edits
-mvars == <<cvars, edits>>
+mvars == <<cvars, svars, edits>>
 Slots == {1, 2, 3}
 Vals == {Fit(0), Fit(2), Fit(3), Fit(5), Fit(-5)} \cup
         (IF Unfit THEN {[fit |-> FALSE, n |-> 9, tag |-> "big"]} ELSE {})
@@ -13,13 +13,13 @@ Recs == [slot : Slots, val : Vals]
 Files == {<<>>} \cup {<<a>> : a \in Recs} \cup {<<a, b>> : a, b \in Recs}
 
 MCInit == CInit /\ edits = 0 /\ horigin' = horigin
-MCInit2 == hist = <<>> /\ horigin = 2 /\ latest = 0 /\ efile = <<>> /\ sent = <<>> /\ edits = 0
+MCInit2 == SInit /\ hist = <<>> /\ horigin = 2 /\ latest = 0 /\ efile = <<>> /\ sent = <<>> /\ edits = 0
 MCNext ==
   \/ (edits < MaxEdits /\ edits' = edits + 1 /\ \E f \in Files : EditFile(f))
   \/ (LoopIter /\ UNCHANGED edits)
   \/ (ClientRestart /\ UNCHANGED edits)
   \/ (Len(sent) < 4 /\ \E ts \in Slots : Resend(ts) /\ UNCHANGED edits)
-MCSpec == MCInit2 /\ [][MCNext]_mvars
+MCSpec == MCInit2 /\ [][MCNext /\ UNCHANGED svars]_mvars
 Bound == Len(sent) <= 5
 OutOfRangeRefused == \A ts \in DOMAIN hist : ts >= horigin
 =============================================================================
